@@ -18,6 +18,7 @@ func init() {
 		Runs: []run{
 			{Test: "TestC15_Flow", Quick: 20000, Thorough: 300000},
 			// Same round trip as the fuzz target, as replayable rapid scripts (test "challenge").
+			{Test: "TestC15_Overlap", Quick: 3000, Thorough: 100000, Shards: 4},
 			{Test: "TestC15_Challenge", Quick: 20000, Thorough: 200000, Shards: 4},
 			{Test: "FuzzC15_ParseWWWAuthenticate", Fuzz: true, FuzzTime: "60s"},
 		},
